@@ -38,8 +38,8 @@ C["C01"] = dict(level="other",
  stubs=["zzMsgs (socket.Messages)", "funcs model", "zzBytesCodec (body codec)", "hslam/log (empty bodies)"],
  bounds={"calls per connection": "quick 2, thorough 3", "payload": "1 symbolic byte per call (client), 1 or 10 bytes (server)", "initial sequence number": "quick 0; thorough: any 64-bit value (symbolic)", "framing": "2 frames, payloads 0..2 and 1..2 bytes, every chunking of the stream", "schedules": SCHED + "; gran 3 (SRVw only) = preemption before every call of a function with a body", "pool policy": "sync.Pool LIFO reuse (maximal aliasing)"},
  outside=["TCP itself, the auto-batching writer of hslam/writer", "more outstanding calls than the bound", "Transport/Client wrappers (address routing is C14/C16)", "payloads larger than the stated sizes (header codecs at all boundaries: C07)"],
- runs={"quick": [run("CLI", labels=CLI_C01), run("CLIb", labels=CLI_C01), run("SRV", labels=SRV_C01), run("SRV", params={"srv.nocopy": 1, "srv.N": 3, "srv.kinds": 2, "srv.arglens": 1, "srv.concrete": 1, "srv.bufsizes": 2}, labels=SRV_C01), run("SRVn", labels=SRV_C01 + ["one-response-per-request"]), run("STR2", labels=["unary-call-unaffected-by-streams", "messages-in-order-unmodified", "all-messages-delivered"]), run("SRVw", P=1, gran=3), run("FRAM")],
-       "thorough": [run("SRVn", params={"srvn.full": 1}, labels=SRV_C01 + ["one-response-per-request"], budget=1500), run("CLI", params={"cli.K": 3}, labels=CLI_C01, budget=900), run("CLI", params={"cli.symseq": 1}, labels=CLI_C01, budget=900), run("SRV", params={"srv.N": 3, "srv.kinds": 3, "srv.arglens": 1, "srv.bufsizes": 1}, labels=SRV_C01, budget=1200), run("SRV", params={"srv.nocopy": 1, "srv.N": 3, "srv.kinds": 3, "srv.arglens": 1, "srv.bufsizes": 2}, labels=SRV_C01, budget=1500), run("CLIb", params={"clib.K": 4}, labels=CLI_C01, budget=1200), run("FRAM")]})
+ runs={"quick": [run("CLIm", labels=["reply-of-own-args", "no-error", "arguments-untouched", "request-sent-as-issued", "panic"]), run("CLIm", params={"clim.pairs": 1}, labels=["reply-of-own-args", "no-error", "arguments-untouched", "request-sent-as-issued", "panic"]), run("CLI", labels=CLI_C01), run("CLIb", labels=CLI_C01), run("SRV", labels=SRV_C01), run("SRV", params={"srv.nocopy": 1, "srv.N": 3, "srv.kinds": 2, "srv.arglens": 1, "srv.concrete": 1, "srv.bufsizes": 2}, labels=SRV_C01), run("SRVn", labels=SRV_C01 + ["one-response-per-request"]), run("STR2", labels=["unary-call-unaffected-by-streams", "messages-in-order-unmodified", "all-messages-delivered"]), run("SRVw", P=1, gran=3), run("FRAM")],
+       "thorough": [run("CLIm", params={"clim.K": 5}, labels=["reply-of-own-args", "no-error", "arguments-untouched", "request-sent-as-issued", "panic"], budget=1500), run("CLIm", params={"clim.pairs": 1}, labels=["reply-of-own-args", "no-error", "arguments-untouched", "request-sent-as-issued", "panic"]), run("SRVn", params={"srvn.full": 1}, labels=SRV_C01 + ["one-response-per-request"], budget=1500), run("CLI", params={"cli.K": 3}, labels=CLI_C01, budget=900), run("CLI", params={"cli.symseq": 1}, labels=CLI_C01, budget=900), run("SRV", params={"srv.N": 3, "srv.kinds": 3, "srv.arglens": 1, "srv.bufsizes": 1}, labels=SRV_C01, budget=1200), run("SRV", params={"srv.nocopy": 1, "srv.N": 3, "srv.kinds": 3, "srv.arglens": 1, "srv.bufsizes": 2}, labels=SRV_C01, budget=1500), run("CLIb", params={"clib.K": 4}, labels=CLI_C01, budget=1200), run("FRAM")]})
 
 C["C02"] = dict(level="other",
  explanation="Symbolic execution of the real Conn code over the stub socket: K asynchronous calls; the environment delivers a bounded script of frames whose sequence numbers are chosen freely (own, duplicate, unknown), with or without error text, a write may fail, the peer may disconnect, the read may fail, the client may Close; every macro-step interleaving is explored. In every terminal state each call's Done channel holds the call exactly once. Each violation is attributed to the set of code sites that signalled the call (watch on (*Call).done).",
@@ -48,8 +48,8 @@ C["C02"] = dict(level="other",
  stubs=["zzMsgs (socket.Messages)", "zzBytesCodec (body codec)"],
  bounds={"calls": "2", "frames": "quick 2, thorough 3", "write faults": "at most 1", "modes": "default, directIO, client pipelining", "schedules": SCHED},
  outside=["Done channels without room", "more calls/frames than the bound", "schedules needing preemption inside a lock-free segment (thorough runs gran 1, P=1 on a smaller script)"],
- runs={"quick": [run("C02", labels=["exactly-once", "panic"]), run("CLI", labels=["each-call-signalled-once"]), run("C19", labels=["sibling-gets-own-reply", "later-call-gets-own-reply", "callwithcontext-returns"]), run("C02r", P=1, gran=1, labels=["exactly-once", "outstanding-call-completes", "outstanding-call-fails", "no-goroutine-stuck", "panic"])],
-       "thorough": [run("C02", params={"c02.F": 3}, labels=["exactly-once", "panic"], budget=1500), run("C02", P=1, gran=1, params={"c02.F": 1}, labels=["exactly-once", "panic"], budget=1500), run("C02r", P=2, gran=1, labels=["exactly-once", "outstanding-call-fails", "no-goroutine-stuck", "panic"], budget=900)]})
+ runs={"quick": [run("CLIm", labels=["other-connection-unaffected", "no-goroutine-stuck", "panic", "no-error", "ping-ok", "stream-close-ok", "stream-open-ok"]), run("CLIm", params={"clim.pairs": 1}, labels=["other-connection-unaffected", "no-goroutine-stuck", "panic", "no-error", "ping-ok", "stream-close-ok", "stream-open-ok"]), run("C02", labels=["exactly-once", "panic"]), run("CLI", labels=["each-call-signalled-once"]), run("C19", labels=["sibling-gets-own-reply", "later-call-gets-own-reply", "callwithcontext-returns"]), run("C02r", P=1, gran=1, labels=["exactly-once", "outstanding-call-completes", "outstanding-call-fails", "no-goroutine-stuck", "panic"])],
+       "thorough": [run("CLIm", params={"clim.K": 5}, labels=["other-connection-unaffected", "no-goroutine-stuck", "panic", "no-error", "ping-ok", "stream-close-ok", "stream-open-ok"], budget=1500), run("CLIm", params={"clim.pairs": 1}, labels=["other-connection-unaffected", "no-goroutine-stuck", "panic", "no-error", "ping-ok", "stream-close-ok", "stream-open-ok"]), run("C02", params={"c02.F": 3}, labels=["exactly-once", "panic"], budget=1500), run("C02", P=1, gran=1, params={"c02.F": 1}, labels=["exactly-once", "panic"], budget=1500), run("C02r", P=2, gran=1, labels=["exactly-once", "outstanding-call-fails", "no-goroutine-stuck", "panic"], budget=900)]})
 
 C["C03"] = dict(level="other",
  explanation="Symbolic execution of the real Conn code: K blocking callers (Call or Ping), a correct server answers the first A requests and the connection is then cut at once (peer EOF / read error / local Close); a late call follows. Terminal-state assertions: no caller is blocked, unanswered calls fail (ErrShutdown for an orderly end), answered calls succeed with their own reply, the late call fails with ErrShutdown without writing, every goroutine exits.",
@@ -58,7 +58,7 @@ C["C03"] = dict(level="other",
  stubs=["zzMsgs (socket.Messages)", "zzBytesCodec"],
  bounds={"callers": "2 of either kind (thorough: 3 plain callers)", "cut": "after 0..K responses", "modes": "default, directIO, client pipelining", "schedules": SCHED},
  outside=["wall-clock bounds", "TLS/ws framing"],
- runs={"quick": [run("C03"), run("STRc", labels=["reader-unblocked", "blocked-read-returns-shutdown", "open-fails-when-connection-ends-first"]), run("C02r", labels=["outstanding-call-completes", "outstanding-call-fails", "no-goroutine-stuck"]), run("C02r", P=1, gran=1, labels=["outstanding-call-completes", "outstanding-call-fails", "no-goroutine-stuck"])], "thorough": [run("C03", params={"c03.K": 3, "c03.pings": 0}, budget=1800), run("STRc", P=1, gran=1, params={"str.N": 1, "str.badwrite": 0}, labels=["reader-unblocked", "blocked-read-returns-shutdown"], budget=600)]})
+ runs={"quick": [run("CLI", params={"cli.cut": 1, "cli.partial": 1}, labels=["reply-of-own-args", "no-error", "unanswered-call-fails-with-ErrShutdown", "no-goroutine-stuck", "each-call-signalled-once", "error-text-of-own-call"]), run("C03"), run("STRc", labels=["reader-unblocked", "blocked-read-returns-shutdown", "open-fails-when-connection-ends-first"]), run("C02r", labels=["outstanding-call-completes", "outstanding-call-fails", "no-goroutine-stuck"]), run("C02r", P=1, gran=1, labels=["outstanding-call-completes", "outstanding-call-fails", "no-goroutine-stuck"])], "thorough": [run("C03", params={"c03.K": 3, "c03.pings": 0}, budget=1800), run("STRc", P=1, gran=1, params={"str.N": 1, "str.badwrite": 0}, labels=["reader-unblocked", "blocked-read-returns-shutdown"], budget=600)]})
 
 C["C04"] = dict(level="other",
  explanation="Symbolic execution of the real server path ServeCodec -> ServeRequest -> handleRequest -> readRequestBody -> callService -> sendResponse with the real serverCodec: N request frames of every kind (each handler shape, failing handler, unknown method, ping), symbolic argument bytes, all server modes (pipelining x directIO x context buffer x buffer size), frames arriving together or one by one; the execution log must contain exactly one entry per executable request with that request's own argument bytes, pings none, and the write log exactly one response per request with its sequence number.",
@@ -67,7 +67,7 @@ C["C04"] = dict(level="other",
  stubs=["zzMsgs", "funcs model", "zzBytesCodec", "hslam/log"],
  bounds={"requests": "quick 2, thorough 3", "args": "1 or 10 symbolic bytes", "modes": "pipelining x directIO x shared x bufsize{8,64}", "schedules": SCHED},
  outside=["handler bodies and reflection internals", "poll mode (C05 SRVp and stream harnesses only)", "Client.Call never retries: covered through the CLT harness's one-roundtrip-per-call label under C16"],
- runs={"quick": [run("SRV", params={"srv.kinds": 8}, labels=SRV_C04 + ["rejected-request-not-answered"]), run("SRV", params={"srv.N": 3, "srv.kinds": 3, "srv.menu": 1}, labels=SRV_C04 + ["rejected-request-not-answered", "panic"]), run("SRVn", labels=["reply-of-own-args", "one-response-per-request"]), run("SRVw", P=1, gran=3), run("TRretry")], "thorough": [run("SRVn", params={"srvn.full": 1}, labels=["reply-of-own-args", "one-response-per-request"], budget=1500), run("SRV", params={"srv.N": 3, "srv.kinds": 8, "srv.arglens": 1, "srv.bufsizes": 1}, labels=SRV_C04 + ["rejected-request-not-answered"], budget=3000), run("TRretry"), run("TRretry", P=1, gran=1)]})
+ runs={"quick": [run("CLIm", labels=["request-sent-as-issued", "reply-of-own-args", "panic"]), run("CLIm", params={"clim.pairs": 1}, labels=["request-sent-as-issued", "reply-of-own-args", "panic"]), run("SRV", params={"srv.kinds": 8}, labels=SRV_C04 + ["rejected-request-not-answered"]), run("SRV", params={"srv.N": 3, "srv.kinds": 3, "srv.menu": 1}, labels=SRV_C04 + ["rejected-request-not-answered", "panic"]), run("SRVn", labels=["reply-of-own-args", "one-response-per-request"]), run("SRVw", P=1, gran=3), run("TRretry")], "thorough": [run("CLIm", params={"clim.K": 5}, labels=["request-sent-as-issued", "reply-of-own-args", "panic"], budget=1500), run("CLIm", params={"clim.pairs": 1}, labels=["request-sent-as-issued", "reply-of-own-args", "panic"]), run("SRVn", params={"srvn.full": 1}, labels=["reply-of-own-args", "one-response-per-request"], budget=1500), run("SRV", params={"srv.N": 3, "srv.kinds": 8, "srv.arglens": 1, "srv.bufsizes": 1}, labels=SRV_C04 + ["rejected-request-not-answered"], budget=3000), run("TRretry"), run("TRretry", P=1, gran=1)]})
 
 C["C05"] = dict(level="other",
  explanation="Server: SRV harness with pipelining on and handlers that yield in the middle: executions never overlap, execution order and response order (pings excepted: they are not executed and may be answered by the decode worker) equal arrival order. Client: CLI harness with SetPipelining: calls issued by one goroutine on a shared Done channel must be signalled in issue order for every mix of success and server-reported error.",
@@ -76,8 +76,8 @@ C["C05"] = dict(level="other",
  stubs=["zzMsgs", "funcs model", "zzBytesCodec"],
  bounds={"requests / calls": "2 (thorough 3)", "schedules": SCHED},
  outside=["ping responses relative to call responses", "write failures / connection loss in the client order (C02 harness covers completion, not order)"],
- runs={"quick": [run("SRV", params={"srv.pipelining": 1}, labels=SRV_C05), run("CLI", params={"cli.forms": 2}, labels=["pipelined-completion-order", "pipelined-wire-order"]), run("SRVp", labels=SRV_C05 + ["one-response-per-request", "no-extra-or-missing-execution"]), run("SRVp", P=1, gran=1, labels=SRV_C05 + ["one-response-per-request", "no-extra-or-missing-execution"], budget=300), run("SRVp2")],
-       "thorough": [run("SRV", params={"srv.pipelining": 1, "srv.N": 3, "srv.kinds": 6, "srv.arglens": 1, "srv.bufsizes": 1}, labels=SRV_C05, budget=1500), run("CLI", params={"cli.K": 3}, labels=["pipelined-completion-order"], budget=900), run("SRVp", P=2, gran=1, params={"srv.N": 2}, labels=SRV_C05 + ["one-response-per-request", "no-extra-or-missing-execution"], budget=1500), run("SRVp", P=1, gran=1, params={"srv.N": 3, "srvp.yield": 1}, labels=SRV_C05 + ["one-response-per-request", "no-extra-or-missing-execution"], budget=1500)]})
+ runs={"quick": [run("CLI", params={"cli.cut": 1, "cli.partial": 1}, labels=["pipelined-completion-order", "pipelined-wire-order", "each-call-signalled-once"], maporder=True), run("SRV", params={"srv.pipelining": 1, "srv.cut": 1, "srv.kinds": 4}, labels=SRV_C05 + ["one-response-per-request", "no-extra-or-missing-execution"]), run("SRV", params={"srv.pipelining": 1}, labels=SRV_C05), run("CLI", params={"cli.forms": 2}, labels=["pipelined-completion-order", "pipelined-wire-order"]), run("SRVp", labels=SRV_C05 + ["one-response-per-request", "no-extra-or-missing-execution"]), run("SRVp", P=1, gran=1, labels=SRV_C05 + ["one-response-per-request", "no-extra-or-missing-execution"], budget=300), run("SRVp2")],
+       "thorough": [run("CLI", params={"cli.cut": 1, "cli.partial": 1, "cli.K": 3}, labels=["pipelined-completion-order", "pipelined-wire-order", "each-call-signalled-once"], budget=1800), run("SRV", params={"srv.pipelining": 1, "srv.cut": 1, "srv.N": 3, "srv.kinds": 3}, labels=SRV_C05 + ["one-response-per-request", "no-extra-or-missing-execution"], budget=1500), run("SRV", params={"srv.pipelining": 1, "srv.N": 3, "srv.kinds": 6, "srv.arglens": 1, "srv.bufsizes": 1}, labels=SRV_C05, budget=1500), run("CLI", params={"cli.K": 3}, labels=["pipelined-completion-order"], budget=900), run("SRVp", P=2, gran=1, params={"srv.N": 2}, labels=SRV_C05 + ["one-response-per-request", "no-extra-or-missing-execution"], budget=1500), run("SRVp", P=1, gran=1, params={"srv.N": 3, "srvp.yield": 1}, labels=SRV_C05 + ["one-response-per-request", "no-extra-or-missing-execution"], budget=1500)]})
 
 C["C06"] = dict(level="other",
  explanation="Client: for a response frame with error text E exactly the call with that sequence number fails, Error.Error() equals E byte for byte when read after all further frames have been processed (pool reuse), Reply is untouched, the neighbour call gets its own reply. Server: every failure path (handler error, unknown method, undecodable arguments) yields exactly one response with the server-side text. A request that cannot be encoded fails only that call and NumCalls returns to its previous value.",
@@ -86,8 +86,8 @@ C["C06"] = dict(level="other",
  stubs=["zzMsgs", "funcs model", "zzBytesCodec"],
  bounds={"calls": "2 (thorough 3)", "schedules": SCHED, "pool policy": "LIFO reuse"},
  outside=["json header (copies strings)", "reply marshal errors"],
- runs={"quick": [run("CLI", params={"cli.encoders": 3}, labels=["error-text-of-own-call", "reply-untouched-on-error", "no-error", "reply-of-own-args"]), run("SRV", params={"srv.kinds": 7}, labels=SRV_C06), run("SRV", params={"srv.kinds": 3, "srv.menu": 2, "srv.encoders": 3, "srv.concrete": 1}, labels=SRV_C06 + ["unencodable-reply-text"]), run("C06w"), run("C06x"), run("STRs", params={"str.W": 2, "str.R": 1}, labels=["unary-call-unaffected-by-streams", "pushes-written", "pushes-in-order-unmodified"])],
-       "thorough": [run("CLI", params={"cli.K": 3}, labels=["error-text-of-own-call", "reply-untouched-on-error", "no-error", "reply-of-own-args"], budget=900), run("SRV", params={"srv.kinds": 7, "srv.N": 3, "srv.arglens": 1, "srv.bufsizes": 1}, labels=SRV_C06, budget=2400), run("C06w"), run("C06x"), run("C06x", P=1, gran=1, budget=900)]})
+ runs={"quick": [run("CLIm", labels=["refused-stream-open-reports-server-error", "no-error", "reply-of-own-args", "panic", "other-connection-unaffected", "no-goroutine-stuck"]), run("CLIm", params={"clim.pairs": 1}, labels=["refused-stream-open-reports-server-error", "no-error", "reply-of-own-args", "panic", "other-connection-unaffected", "no-goroutine-stuck"]), run("CLI", params={"cli.encoders": 3}, labels=["error-text-of-own-call", "reply-untouched-on-error", "no-error", "reply-of-own-args"]), run("SRV", params={"srv.kinds": 7}, labels=SRV_C06), run("SRV", params={"srv.kinds": 3, "srv.menu": 2, "srv.encoders": 3, "srv.concrete": 1}, labels=SRV_C06 + ["unencodable-reply-text"]), run("C06w"), run("C06x"), run("STRs", params={"str.W": 2, "str.R": 1}, labels=["unary-call-unaffected-by-streams", "pushes-written", "pushes-in-order-unmodified"])],
+       "thorough": [run("CLIm", params={"clim.K": 5}, labels=["refused-stream-open-reports-server-error", "no-error", "reply-of-own-args", "panic", "other-connection-unaffected", "no-goroutine-stuck"], budget=1500), run("CLIm", params={"clim.pairs": 1}, labels=["refused-stream-open-reports-server-error", "no-error", "reply-of-own-args", "panic", "other-connection-unaffected", "no-goroutine-stuck"]), run("CLI", params={"cli.K": 3}, labels=["error-text-of-own-call", "reply-untouched-on-error", "no-error", "reply-of-own-args"], budget=900), run("SRV", params={"srv.kinds": 7, "srv.N": 3, "srv.arglens": 1, "srv.bufsizes": 1}, labels=SRV_C06, budget=2400), run("C06w"), run("C06x"), run("C06x", P=1, gran=1, budget=900)]})
 
 C["C07"] = dict(level="other",
  explanation="Bounded symbolic execution of the real header encoders/decoders (default pbRequest/pbResponse + checkBuffer, 'pb' = GOGOPBCodec wrapper, 'code' request/response, upgrade byte, and the clientCodec/serverCodec glue) from go/ssa: field contents, the 64-bit sequence number (symbolic inside each varint size class), stale scratch-buffer contents and flags are z3 bit-vector variables; field lengths and capacities are case-split over the stated menu. Obligations per path: no panic, decode(encode(m)) = m, output byte-equal to an independent reference encoder of the documented formats, in-place when the buffer suffices and nothing written past Size().",
@@ -107,8 +107,8 @@ C["C08"] = dict(level="other",
  stubs=["zzMsgs", "funcs model", "zzBytesCodec (returns an error for a value of the wrong type, like GOGOPB/CODE/MSGP codecs)"],
  bounds={"frame length": "decoders: quick 0..4, thorough 0..6; client reader: 0..3 (thorough 4) with 8-byte read buffers", "burst": "2 (thorough 3) requests", "schedules": SCHED},
  outside=["the framing layer's own varint-overflow panic and allocation of a peer-announced length", "memory exhaustion", "TLS/ws handshakes", "poll-mode teardown"],
- runs={"quick": [run("C08dec"), run("C08big"), run("C08srv", labels=["panic", "probe-reply", "probe-answered-once"]), run("C08seq", params={"seq.N": 3}), run("C08cli"), run("C08down"), run("C08down", P=1, gran=1), run("C02r", P=1, gran=1, labels=["panic"])],
-       "thorough": [run("C08dec", params={"c08.N": 6}, budget=1500), run("C08big"), run("C08seq", params={"seq.N": 3}, budget=1500), run("C08srv", labels=["panic", "probe-reply", "probe-answered-once"]), run("C08cli", params={"c08.N": 4}, budget=1500), run("C08down", params={"down.N": 3}), run("C08down", P=1, gran=1, params={"down.N": 3}, budget=2400), run("C02r", P=2, gran=1, labels=["panic"], budget=900)]})
+ runs={"quick": [run("SRV", labels=["panic"]), run("C08dec"), run("C08big"), run("C08srv", labels=["panic", "probe-reply", "probe-answered-once"]), run("C08seq", params={"seq.N": 3}), run("C08cli"), run("C08down"), run("C08down", P=1, gran=1), run("C02r", P=1, gran=1, labels=["panic"])],
+       "thorough": [run("SRV", params={"srv.cut": 1, "srv.arglens": 1}, labels=["panic"], budget=1500), run("C08dec", params={"c08.N": 6}, budget=1500), run("C08big"), run("C08seq", params={"seq.N": 3}, budget=1500), run("C08srv", labels=["panic", "probe-reply", "probe-answered-once"]), run("C08cli", params={"c08.N": 4}, budget=1500), run("C08down", params={"down.N": 3}), run("C08down", P=2, gran=1, budget=2400), run("C02r", P=2, gran=1, labels=["panic"], budget=900)]})
 
 C["C09"] = dict(level="other",
  explanation="Client side: the real NewStream / stream branches of send and read / readStream queue / stream.ReadMessage against an environment that acknowledges the open request and pushes N messages with symbolic contents without pausing after the acknowledgement; the sequence returned by ReadMessage must equal the sequence pushed. Server side: the real ServeRequest/callService stream branches and the stream write closure with a handler that writes and reads in either order; the wire must carry the acknowledgement before the first push and the pushes in order, the handler must read exactly what the client sent.",
@@ -127,8 +127,8 @@ C["C10"] = dict(level="other",
  stubs=["zzMsgs", "stub listener/socket", "funcs model"],
  bounds={"streams": "1", "schedules": SCHED},
  outside=["sibling streams", "real netpoll event loop"],
- runs={"quick": [run("STRc", labels=["reader-unblocked", "blocked-read-returns-shutdown", "read-after-shutdown", "write-after-shutdown", "stream-close-returns", "unary-call-after-stream-close", "close-request-flags"]), run("STRs", labels=["handler-returns-after-stream-or-connection-end", "handler-returns-after-stream-close", "no-goroutine-left"]), run("STRc", P=1, gran=1, params={"str.N": 1, "str.badwrite": 0}, labels=["reader-unblocked", "blocked-read-returns-shutdown", "read-after-shutdown", "write-after-shutdown", "stream-close-returns"], budget=300), run("STRc", params={"str.readers": 2, "str.N": 1, "str.badwrite": 0}, labels=["reader-unblocked", "blocked-read-returns-shutdown", "open-fails-when-connection-ends-first"])],
-       "thorough": [run("STRc", P=1, gran=1, labels=["reader-unblocked", "blocked-read-returns-shutdown", "read-after-shutdown", "write-after-shutdown", "stream-close-returns"], budget=1500), run("STRs", P=1, gran=1, labels=["handler-returns-after-stream-or-connection-end", "handler-returns-after-stream-close", "no-goroutine-left"], budget=1500), run("STRc", params={"str.N": 3}, labels=["reader-unblocked", "blocked-read-returns-shutdown", "read-after-shutdown", "write-after-shutdown", "stream-close-returns", "unary-call-after-stream-close", "close-request-flags"]), run("STRs", params={"str.W": 2, "str.R": 2}, labels=["handler-returns-after-stream-or-connection-end", "handler-returns-after-stream-close", "no-goroutine-left"], budget=900)]})
+ runs={"quick": [run("C08seq", labels=["teardown-completes-after-any-frame-sequence"]), run("STRe", P=1, gran=1), run("STRc", labels=["reader-unblocked", "blocked-read-returns-shutdown", "read-after-shutdown", "write-after-shutdown", "stream-close-returns", "unary-call-after-stream-close", "close-request-flags"]), run("STRs", labels=["handler-returns-after-stream-or-connection-end", "handler-returns-after-stream-close", "no-goroutine-left"]), run("STRc", P=1, gran=1, params={"str.N": 1, "str.badwrite": 0}, labels=["reader-unblocked", "blocked-read-returns-shutdown", "read-after-shutdown", "write-after-shutdown", "stream-close-returns"], budget=300), run("STRc", params={"str.readers": 2, "str.N": 1, "str.badwrite": 0}, labels=["reader-unblocked", "blocked-read-returns-shutdown", "open-fails-when-connection-ends-first"])],
+       "thorough": [run("C08seq", params={"seq.N": 3}, labels=["teardown-completes-after-any-frame-sequence"], budget=1500), run("STRe", P=2, gran=1, budget=1500), run("STRc", P=1, gran=1, labels=["reader-unblocked", "blocked-read-returns-shutdown", "read-after-shutdown", "write-after-shutdown", "stream-close-returns"], budget=1500), run("STRs", P=1, gran=1, labels=["handler-returns-after-stream-or-connection-end", "handler-returns-after-stream-close", "no-goroutine-left"], budget=1500), run("STRc", params={"str.N": 3}, labels=["reader-unblocked", "blocked-read-returns-shutdown", "read-after-shutdown", "write-after-shutdown", "stream-close-returns", "unary-call-after-stream-close", "close-request-flags"]), run("STRs", params={"str.W": 2, "str.R": 2}, labels=["handler-returns-after-stream-or-connection-end", "handler-returns-after-stream-close", "no-goroutine-left"], budget=900)]})
 
 C["C11"] = dict(level="other",
  explanation="The byte slices the library hands to user code are compared, after further traffic through the same (LIFO-reused) pools, with the symbolic bytes they had at hand-over: handler arguments (SRV harness, copy modes), replies (CLI harness; context buffer: C19 harness), stream messages and caller-supplied buffers in stream.ReadMessage (C11m: capacity smaller/equal/larger than the message; bytes beyond the reported length must keep their symbolic stale value). Aliasing is exact in the engine (slices share backing arrays), so a missing copy shows up as a failed equality.",
@@ -137,8 +137,8 @@ C["C11"] = dict(level="other",
  stubs=["zzMsgs", "funcs model", "zzBytesCodec"],
  bounds={"message length": "1..3 (C11m), 1 or 10 (handler args)", "further traffic": "2 messages / 1-2 frames"},
  outside=["NoCopy modes (excluded by the property)", "user code calling FreeContextBuffer"],
- runs={"quick": [run("C11m"), run("SRV", labels=["handler-args-stable"]), run("SRV", params={"srv.N": 3, "srv.kinds": 1, "srv.exactfit": 1}, labels=["handler-args-stable"]), run("C11c"), run("STRc", labels=["messages-in-order-unmodified"]), run("STRs", params={"str.W": 2, "str.R": 2}, labels=["handler-messages-in-order-unmodified", "pushes-in-order-unmodified"]), run("CLI", labels=["reply-of-own-args"]), run("C19", labels=["own-reply", "reply-placed-in-context-buffer", "nothing-written-past-reply-length", "small-buffer-untouched"])],
-       "thorough": [run("C11m"), run("SRV", params={"srv.N": 3, "srv.kinds": 4, "srv.arglens": 1, "srv.bufsizes": 1}, labels=["handler-args-stable"], budget=1500), run("SRV", params={"srv.N": 3, "srv.kinds": 2, "srv.exactfit": 1}, labels=["handler-args-stable"], budget=1500), run("C11c", params={"c11c.N": 4}, budget=900), run("STRc", params={"str.N": 3}, labels=["messages-in-order-unmodified"]), run("STRs", params={"str.W": 2, "str.R": 3}, labels=["handler-messages-in-order-unmodified", "pushes-in-order-unmodified"]), run("CLI", params={"cli.K": 3}, labels=["reply-of-own-args"], budget=900), run("C19", labels=["own-reply", "reply-placed-in-context-buffer", "nothing-written-past-reply-length", "small-buffer-untouched"])]})
+ runs={"quick": [run("CLIb", labels=["context-buffer-untouched-by-later-calls", "reply-stable-after-later-traffic"]), run("CLIm", labels=["arguments-untouched"]), run("C11m"), run("SRV", labels=["handler-args-stable"]), run("SRV", params={"srv.N": 3, "srv.kinds": 1, "srv.exactfit": 1}, labels=["handler-args-stable"]), run("C11c"), run("STRc", labels=["messages-in-order-unmodified"]), run("STRs", params={"str.W": 2, "str.R": 2}, labels=["handler-messages-in-order-unmodified", "pushes-in-order-unmodified"]), run("CLI", labels=["reply-of-own-args"]), run("C19", labels=["own-reply", "reply-placed-in-context-buffer", "nothing-written-past-reply-length", "small-buffer-untouched"])],
+       "thorough": [run("CLIb", params={"clib.K": 4}, labels=["context-buffer-untouched-by-later-calls", "reply-stable-after-later-traffic"], budget=1500), run("C11m"), run("SRV", params={"srv.N": 3, "srv.kinds": 4, "srv.arglens": 1, "srv.bufsizes": 1}, labels=["handler-args-stable"], budget=1500), run("SRV", params={"srv.N": 3, "srv.kinds": 2, "srv.exactfit": 1}, labels=["handler-args-stable"], budget=1500), run("C11c", params={"c11c.N": 4}, budget=900), run("STRc", params={"str.N": 3}, labels=["messages-in-order-unmodified"]), run("STRs", params={"str.W": 2, "str.R": 3}, labels=["handler-messages-in-order-unmodified", "pushes-in-order-unmodified"]), run("CLI", params={"cli.K": 3}, labels=["reply-of-own-args"], budget=900), run("C19", labels=["own-reply", "reply-placed-in-context-buffer", "nothing-written-past-reply-length", "small-buffer-untouched"])]})
 
 C["C12"] = dict(level="other",
  explanation="Projection of C12 that symbolic execution can reach: (i) DialWithOptions and ListenWithOptions, run on the same Options value from a menu covering registered names, unregistered names with constructors, constructors only and both, build codecs with the same body-codec and header-encoder types and a registered name wins over a constructor on both ends; (ii) the server harness's oracle (replies, errors, executions) does not depend on the mode vector (pipelining x directIO x context buffer x buffer size smaller/larger than the message), so passing it in every mode is mode independence; buffer sizes in the header glue: C07.",
@@ -147,7 +147,7 @@ C["C12"] = dict(level="other",
  stubs=["stub socket/listener", "zzMsgs", "funcs model", "zzBytesCodec"],
  bounds={"options menu": "3 network forms x 5 codec forms x 5 header-encoder forms x 3 buffer sizes", "server modes": "16 mode vectors"},
  outside=["equivalence across tcp/unix/http/ws/inproc and TLS: real sockets, crypto/tls, net/http, websocket framing cannot be encoded", "json/xml/msgp body codecs (reflection)"],
- runs={"quick": [run("C12opt"), run("SRV", labels=SRV_ALL), run("SRVw", P=1, gran=3)], "thorough": [run("C12opt"), run("SRV", params={"srv.N": 3, "srv.kinds": 3, "srv.arglens": 1}, labels=SRV_ALL, budget=1500), run("SRVw", P=1, gran=3, budget=1500)]})
+ runs={"quick": [run("CLIb", labels=["reply-of-own-args", "reply-stable-after-later-traffic", "no-error"]), run("C12opt"), run("SRV", labels=SRV_ALL), run("SRVw", P=1, gran=3)], "thorough": [run("CLIb", params={"clib.K": 4}, labels=["reply-of-own-args", "reply-stable-after-later-traffic", "no-error"], budget=1500), run("C12opt"), run("SRV", params={"srv.N": 3, "srv.kinds": 3, "srv.arglens": 1}, labels=SRV_ALL, budget=1500), run("SRVw", P=1, gran=3, budget=1500)]})
 
 TR_C13 = ["open-conns-within-MaxConnsPerHost", "idle-conns-within-MaxIdleConnsPerHost"]
 TR_C14 = ["sent-only-to-requested-address", "reply-ok", "failure-is-shutdown", "recovers-after-one-failure-per-pooled-conn", "down-fails-with-dial-or-shutdown"]
@@ -158,7 +158,7 @@ C["C13"] = dict(level="other",
  stubs=["zzMsgs (auto-answering server)", "Dial stub", "clock"],
  bounds={"operations": "quick 3, thorough 4", "limits (MaxConns,MaxIdle)": "(1,1),(2,1),(2,2) + (0,0),(1,3) in thorough", "addresses": "2", "ticks": "1 (thorough 2)"},
  outside=["concurrent callers (sequential histories only)", "longer histories"],
- runs={"quick": [run("TR", labels=TR_C13), run("TRlim", params={"trlim.limits": 3}, labels=TR_C13), run("TRcc", labels=TR_C13)], "thorough": [run("TR", params={"tr.S": 4, "tr.limits": 5, "tr.ticks": 2}, labels=TR_C13, budget=2400), run("TRlim", params={"trlim.limits": 8}, labels=TR_C13, budget=1500), run("TRcc", labels=TR_C13), run("TRcc", P=1, gran=1, labels=TR_C13, budget=1500)]})
+ runs={"quick": [run("TR", labels=TR_C13), run("TRlim", params={"trlim.limits": 3}, labels=TR_C13), run("TRcc", labels=TR_C13)], "thorough": [run("TR", params={"tr.S": 3, "tr.limits": 5, "tr.ticks": 2}, labels=TR_C13, budget=2400), run("TRlim", params={"trlim.limits": 8}, labels=TR_C13, budget=1500), run("TRcc", labels=TR_C13), run("TRcc", P=1, gran=1, labels=TR_C13, budget=1500)]})
 
 C["C14"] = dict(level="other",
  explanation="Same Transport histories as C13 asserting routing (a call to A writes only on connections dialed to A) and failure kinds, plus the directed recovery harness TRrec: one pooled connection, server killed and restarted, then a sequential caller with ticks allowed between calls and symbolic clock readings: at most one failure per pooled connection, then success, and it stays recovered.",
@@ -178,7 +178,7 @@ C["C15"] = dict(level="other",
  outside=["more than 2 preemptions"],
  runs={"quick": [run("C15"), run("C15s"), run("TRlim", params={"trlim.limits": 2}, labels=["close-closes-every-connection"])], "thorough": [run("C15"), run("C15s", params={"c15.ticks": 2}), run("TRlim", labels=["close-closes-every-connection"], budget=1500), run("C15", P=2, gran=1, params={"c15.ops": 1, "c15.ticks": 0, "c15.nlimits": 1, "c15.nwarm": 1, "c15.closeonly": 1}, budget=900), run("C15", P=1, gran=1, params={"c15.ops": 1, "c15.ticks": 1, "c15.nlimits": 1}, budget=1500)]})
 
-CLT_C16 = ["one-roundtrip-per-call", "director-result-wins", "routed-to-current-target", "unrouted-call-fails-with-timeout"]
+CLT_C16 = ["panic", "one-roundtrip-per-call", "director-result-wins", "routed-to-current-target", "unrouted-call-fails-with-timeout"]
 C["C16"] = dict(level="other",
  explanation="Bounded histories on the real Client (Update/director/schedule/check/checkPending/detect/run) over a stub RoundTripper with scripted target health: Update with target lists containing duplicates and empty strings, health changes, calls under each policy, Director hook, idle periods in which detector ticks and DialTimeout timers fire; every address handed to the RoundTripper is in the most recent target set or is the Director's non-empty result.",
  rule="one case = one feasible path",
@@ -186,7 +186,7 @@ C["C16"] = dict(level="other",
  stubs=["zzRT (RoundTripper)", "clock", "timers fire at quiescent points"],
  bounds={"operations": "quick 2, thorough 3", "target menu": "6 lists over {a,b,c} incl. duplicates/empty", "ticks": "2"},
  outside=["concurrent Update and Call (sequential histories)", "longer histories"],
- runs={"quick": [run("CLT", params={"clt.S": 2, "clt.forms": 5}, labels=CLT_C16), run("CLT", params={"clt.S": 2, "clt.slowping": 1, "clt.ticks": 1}, labels=CLT_C16, budget=300), run("C18u", labels=["routed-to-current-target", "live-list-rebuilt-after-update"]), run("C16p", labels=CLT_C16, budget=300), run("C16h", labels=CLT_C16)], "thorough": [run("C16p", params={"c16p.policies": 3}, labels=CLT_C16, budget=900), run("C16h", params={"c16h.allpolicies": 1, "c16h.firsts": 2, "clt.ticks": 2}, labels=CLT_C16, budget=1500), run("CLT", params={"clt.S": 3}, labels=CLT_C16, budget=1500), run("CLT", params={"clt.S": 3, "clt.slowping": 1, "clt.ticks": 1}, labels=CLT_C16, budget=2400), run("C18u", labels=["routed-to-current-target", "live-list-rebuilt-after-update"])]})
+ runs={"quick": [run("CLT", params={"clt.S": 2, "clt.forms": 5}, labels=CLT_C16), run("CLT", params={"clt.S": 2, "clt.slowping": 1, "clt.ticks": 1}, labels=CLT_C16, budget=300), run("C18u", labels=["routed-to-current-target", "live-list-rebuilt-after-update"]), run("C16p", labels=CLT_C16, budget=300), run("C16h", params={"c16h.allpolicies": 1}, labels=CLT_C16)], "thorough": [run("C16p", params={"c16p.policies": 3}, labels=CLT_C16, budget=900), run("C16h", params={"c16h.allpolicies": 1, "c16h.firsts": 2, "clt.ticks": 2}, labels=CLT_C16, budget=1500), run("CLT", params={"clt.S": 3}, labels=CLT_C16, budget=1500), run("CLT", params={"clt.S": 3, "clt.slowping": 1, "clt.ticks": 1}, labels=CLT_C16, budget=2400), run("C18u", labels=["routed-to-current-target", "live-list-rebuilt-after-update"])]})
 
 C["C17"] = dict(level="other",
  explanation="Data-level symbolic execution of schedule/minHeap/heapDown/list/target.Update: round-robin from any cursor gives n distinct targets in n picks; Random picks list[i] for an arbitrary i in range; after minHeap the root is minimal and the heap is a permutation (arbitrary 64-bit latencies); LeastTime probes iff lastTime+Tick < now (symbolic clock and Tick), at most one probe per Tick, otherwise picks a minimal-latency target; target.Update follows the documented branch structure and its EWMA term equals the reference formula under IEEE-754 (differential query).",
@@ -195,8 +195,8 @@ C["C17"] = dict(level="other",
  stubs=["clock", "math/rand.Intn = arbitrary value in range"],
  bounds={"targets n": "2..4 (thorough 2..6)", "latencies": "arbitrary int64", "alpha": "0.8, 0.5, 0, 1, 0.25"},
  outside=["n > 6", "statistical properties of Random", "the statement 'estimate lies between old and new' (solver cannot decide it: differential form used)"],
- runs={"quick": [run("C17rr"), run("C17rand"), run("C17heap"), run("C17lt"), run("C17ewma"), run("C17d")],
-       "thorough": [run("C17rr", params={"c17.maxn": 6}), run("C17rand", params={"c17.maxn": 6}), run("C17heap", params={"c17.maxn": 6}, budget=900), run("C17lt", params={"c17.maxn": 5}, budget=900), run("C17ewma"), run("C17d", params={"clt.ticks": 4})]})
+ runs={"quick": [run("C17p"), run("C17rr"), run("C17rand"), run("C17heap"), run("C17lt"), run("C17ewma"), run("C17d")],
+       "thorough": [run("C17p", params={"c17p.K": 5}), run("C17rr", params={"c17.maxn": 6}), run("C17rand", params={"c17.maxn": 6}), run("C17heap", params={"c17.maxn": 6}, budget=900), run("C17lt", params={"c17.maxn": 5}, budget=900), run("C17ewma"), run("C17d", params={"clt.ticks": 4})]})
 
 C["C18"] = dict(level="other",
  explanation="Callers enter the real Client while no target is live (director/wait/checkClosed); then the target becomes healthy, the Client is closed, Fallback is requested, or nothing happens; detector ticks, DialTimeout and Fallback timers fire at every quiescent point in every order. Terminal states: no caller is stranded; error kinds per release cause (nil or ErrTimeout when woken, ErrShutdown or ErrTimeout when closed, ErrTimeout when nothing is live); after Close calls fail at once. Plus the CLT histories (Close, call after close).",
@@ -205,8 +205,8 @@ C["C18"] = dict(level="other",
  stubs=["zzRT", "timers"],
  bounds={"concurrent callers": "quick 1, thorough 2", "ticks": "2"},
  outside=["wall-clock 'within a bounded detection time'", "more waiters"],
- runs={"quick": [run("C18w", params={"c18.N": 1}), run("C18f"), run("C18fb"), run("C18u"), run("C18c"), run("C18c", P=1, gran=1), run("CLT", params={"clt.S": 2}, labels=["call-after-close-is-shutdown", "second-close-nil", "all-goroutines-exit-after-close", "unrouted-call-fails-with-timeout"])],
-       "thorough": [run("C18w", params={"c18.N": 2}, budget=1500), run("C18f", params={"c18.ticks": 4}), run("C18fb"), run("C18fb", P=1, gran=1), run("C18u"), run("C18c", P=2, gran=1, params={"c18.N": 2}, budget=900), run("C18w", P=1, gran=1, params={"c18.N": 1, "c18.ticks": 1}, budget=1500), run("CLT", params={"clt.S": 3}, labels=["call-after-close-is-shutdown", "second-close-nil", "all-goroutines-exit-after-close", "unrouted-call-fails-with-timeout"], budget=1500)]})
+ runs={"quick": [run("C18r"), run("C18w", params={"c18.N": 1}), run("C18f"), run("C18fb"), run("C18u"), run("C18c"), run("C18c", P=1, gran=1), run("CLT", params={"clt.S": 2}, labels=["call-after-close-is-shutdown", "second-close-nil", "all-goroutines-exit-after-close", "unrouted-call-fails-with-timeout"])],
+       "thorough": [run("C18r"), run("C18w", params={"c18.N": 2}, budget=1500), run("C18f", params={"c18.ticks": 4}), run("C18fb"), run("C18fb", P=1, gran=1), run("C18u"), run("C18c", P=2, gran=1, params={"c18.N": 2}, budget=900), run("C18w", P=1, gran=1, params={"c18.N": 1, "c18.ticks": 1}, budget=1500), run("CLT", params={"clt.S": 3}, labels=["call-after-close-is-shutdown", "second-close-nil", "all-goroutines-exit-after-close", "unrouted-call-fails-with-timeout"], budget=1500)]})
 
 C["C19"] = dict(level="other",
  explanation="One CallWithContext (harness-side context.Context with a buffer of symbolic stale contents and capacity smaller/equal/larger than the reply) and a sibling call on a real Conn; a correct server answers, the context is cancelled, or the call is never answered, in five scripts and every interleaving; a later call follows. CallWithContext returns (never stuck), with the context error when never answered, the reply when never cancelled, one of the two otherwise; the sibling and the later call get their own replies (a late response cannot land on a recycled call: LIFO pool reuse); buffer rules as in C11.",
@@ -224,8 +224,8 @@ C["C20"] = dict(level="other",
  stubs=["zzMsgs", "stub listener/socket", "zzRT"],
  bounds={"histories": "as in the C03, TR, CLT harnesses; server: 2 connections, 1 request"},
  outside=["OS sockets", "poll servers (excluded by the property)"],
- runs={"quick": [run("C03", labels=["every-goroutine-exits", "socket-closed", "second-close-reports-ErrShutdown", "repeated-close-reports-ErrShutdown"]), run("C20srv"), run("C20cl"), run("C02", labels=["socket-closed", "no-goroutine-stuck"]), run("TR", params={"tr.S": 2}, labels=["close-closes-every-connection", "all-goroutines-exit-after-close"]), run("CLT", params={"clt.S": 2}, labels=["all-goroutines-exit-after-close", "transport-closed", "second-close-nil"])],
-       "thorough": [run("C03", params={"c03.K": 3, "c03.pings": 0}, labels=["every-goroutine-exits", "socket-closed", "second-close-reports-ErrShutdown", "repeated-close-reports-ErrShutdown"], budget=1800), run("C20srv"), run("C20cl"), run("C20cl", P=1, gran=1), run("TR", labels=["close-closes-every-connection", "all-goroutines-exit-after-close"]), run("CLT", params={"clt.S": 3}, labels=["all-goroutines-exit-after-close", "transport-closed", "second-close-nil"], budget=1500)]})
+ runs={"quick": [run("STRe", P=1, gran=1), run("C08seq", labels=["teardown-completes-after-any-frame-sequence"]), run("C03", labels=["every-goroutine-exits", "socket-closed", "second-close-reports-ErrShutdown", "repeated-close-reports-ErrShutdown"]), run("C20srv"), run("C20cl"), run("C02", labels=["socket-closed", "no-goroutine-stuck"]), run("TR", params={"tr.S": 2}, labels=["close-closes-every-connection", "all-goroutines-exit-after-close"]), run("CLT", params={"clt.S": 2}, labels=["all-goroutines-exit-after-close", "transport-closed", "second-close-nil"])],
+       "thorough": [run("STRe", P=2, gran=1, budget=1500), run("C03", params={"c03.K": 3, "c03.pings": 0}, labels=["every-goroutine-exits", "socket-closed", "second-close-reports-ErrShutdown", "repeated-close-reports-ErrShutdown"], budget=1800), run("C20srv"), run("C20cl"), run("C20cl", P=1, gran=1), run("TR", labels=["close-closes-every-connection", "all-goroutines-exit-after-close"]), run("CLT", params={"clt.S": 3}, labels=["all-goroutines-exit-after-close", "transport-closed", "second-close-nil"], budget=1500)]})
 
 json.dump(C, open('/verif/checks.json', 'w'), indent=1)
 print("wrote checks for", sorted(C))
